@@ -35,7 +35,7 @@ CAT = [
  ("x_error_wrapped", "v2/priority/assist.go", "	if after-before != dividend {\n		return ErrDividerBad\n	}", "	if after-before != dividend {\n		return errors.Join(ErrDividerBad, errors.New(\"added total differs from the dividend\"))\n	}", ["C15"], "silent"),
  ("x_join_output_cap_1", "v2/join/join.go", "		output:  make(chan []Type, 1+cap(opts.Input)),", "		output:  make(chan []Type, 1),", ["C03", "C09", "C10"], "silent"),
  ("x_join_fresh_buffer_copy_mode", "v2/join/join.go", "func (dsc *Discipline[Type]) resetJoin() {\n	dsc.join = dsc.join[:0]", "func (dsc *Discipline[Type]) resetJoin() {\n	if !dsc.opts.NoCopy {\n		dsc.join = make([]Type, 0, dsc.opts.JoinSize)\n		return\n	}\n	dsc.join = dsc.join[:0]", ["C03", "C08"], "silent"),
- ("x_join_clone_by_append", "v2/join/join.go", "	return slices.Clone(item)", "	return append(make([]Type, 0, 2*len(item)), item...)", ["C03", "C08", "C20"], "silent"),
+ ("x_join_clone_by_append", "v2/join/join.go", "	return slices.Clone(item)", "	return append(slices.Grow([]Type(nil), 2*len(item)), item...)", ["C03", "C08", "C20"], "silent"),
  ("x_join_timeouted_strict", "v2/join/join.go", "	return time.Since(dsc.passAt) >= dsc.opts.Timeout", "	return time.Since(dsc.passAt) > dsc.opts.Timeout", ["C09", "C10"], "silent"),
  ("x_limit_delay_guard", "v2/limit/limit.go", "	time.Sleep(remainder)", "	if remainder > 0 {\n		time.Sleep(remainder)\n	}", ["C04", "C12"], "silent"),
  ("x_limit_timer_instead_of_sleep", "v2/limit/limit.go", "	time.Sleep(remainder)", "	if remainder <= 0 {\n		return\n	}\n	timer := time.NewTimer(remainder)\n	defer timer.Stop()\n	<-timer.C", ["C04", "C12", "C19"], "silent"),
